@@ -127,6 +127,13 @@ def specRun (p : Def) : List Op → List (List (Res Nat))
 /-- The memo, if present, is the table of the current elements and offset. -/
 def Coherent (o : Obj) : Prop := o.table = none ∨ o.table = some (initSteps o.es o.off)
 
+/-- What the validating `cycle_init_timesteps` of the CURRENT source relies on (found by translating it, T17
+    `tie_cycle_init_timesteps_memo`): it compares the DIFFERENCES of the memoised table with the current durations and never
+    looks at the offset, so `fillWith true` (= always the table of the current elements AND offset) is what it returns only
+    because a memo, when present, starts at the current offset.  That holds along every history: the only operation that
+    changes the offset is the `time_offset` setter, which drops the memo (`C17_offCoherent_step` / `_run`). -/
+def OffCoherent (o : Obj) : Prop := ∀ tb, o.table = some tb → tb.head? = some o.off
+
 /-- An operation the non-validating code gets right: in-place edits of durations / of the list only while no table exists. -/
 def SafeAt (o : Obj) : Op → Prop
   | .elDur _ _ => o.table = none
